@@ -607,6 +607,12 @@ def serial_raw_rule(ctx, rid):
 
 
 def run(ctx):
+    import rules.common as _cm
+    ctx.rule('C01.R22', "a value is compared with a constant in the domain of its own type: in the sources of this property every comparison of a variable, member, element or call result with an integer constant (==, !=) has the constant inside the value range of the operand's own integer type before promotion - a symbol held in a signed char never equals 0xA9/0xAA/0xFE, so the escape, SYN or broadcast test behind it is dead for exactly the symbols it exists for", minimum=60)
+    _cm.compare_domain_rule(ctx, 'C01.R22', lambda f: f.relfile.startswith(('src/lib/ebus/protocol', 'src/lib/ebus/symbol.', 'src/lib/ebus/device')), 60)
+    import rules.options as _opt
+    ctx.rule('C01.R21', 'the handler configurations this property ranges over exclude read-only together with answer mode: parse_opt rejects readOnly combined with answer / generateSyn / initialSend in a test that is evaluated for every option, outside the cases of the option switch - bound to one option it depends on the order of the options, and a read-only handler with a registered answer takes a telegram to its own address for answering, cannot send, and drops it instead of reporting it', minimum=1)
+    _opt.readonly_combination_rule(ctx, 'C01.R21')
     serial_raw_rule(ctx, 'C01.R18')
     unescape_rule(ctx, 'C01.R20')
     import rules.C03 as c03
